@@ -5,10 +5,13 @@
 #include <vata/incl_param.hh>
 #include <vata/sim_param.hh>
 template <class Aut>
-static bool prepared_inclusion(Aut smaller, Aut bigger, bool up, bool rec, bool optC, bool sim)
+static bool prepared_inclusion(Aut smaller, Aut bigger, bool up, bool rec, bool optC, bool sim, bool direct = false)
 {
   using namespace VATA;
-  AutBase::StateType states = AutBase::SanitizeAutsForInclusion(smaller, bigger);
+  // direct: the selections without simulation sanitise copies of their operands themselves (CheckInclusion in
+  // src/*_incl.cc), so they may be called on the automata as built (useless states, overlapping state numbers)
+  AutBase::StateType states = 0;
+  if (sim || !direct) states = AutBase::SanitizeAutsForInclusion(smaller, bigger);
   InclParam ip;
   ip.SetAlgorithm(InclParam::e_algorithm::antichains);
   ip.SetDirection(up ? InclParam::e_direction::upward : InclParam::e_direction::downward);
